@@ -1,4 +1,463 @@
 import Utv.Model.C18
+import Utv.Lemmas.C18
+/-!
+C18 — the depth limit is exact and parse cost stays bounded.
+
+Full statement (the property):  with `max_depth = d` a value is accepted exactly when its data-class
+nesting depth is at most `d`, wherever the nested value sits (any list index, any mapping key, any
+union branch), so cyclic inputs are always rejected; the number of leaf conversions grows at most
+polynomially with the size and nesting depth of the input, for valid and invalid inputs alike.
+
+All theorems are about the executable model `Utv.C18.parse` (Model/C18.lean), for every leaf
+behaviour `W`, every environment of (mutually) recursive declarations `E`, every declared type `T`,
+every input `v`, every amount of `fuel`, every context.
+-/
 namespace Utv.C18
-theorem C18_stub : True := trivial
+
+/-! ### list views of the mutual definitions -/
+
+theorem withinL_eq (E : Env) (n : Nat) (rs : List Res) : withinL E n rs = rs.all (within E n) := by
+  induction rs with
+  | nil => simp [withinL]
+  | cons r rs ih => simp [withinL, ih]
+
+theorem withinF_eq (E : Env) (n : Nat) (fs : List (String × Res)) :
+    withinF E n fs = fs.all (fun p => within E n p.2) := by
+  induction fs with
+  | nil => simp [withinF]
+  | cons r rs ih => rcases r with ⟨s, r⟩; simp [withinF, ih]
+
+theorem withinK_eq (E : Env) (n : Nat) (fs : List (Key × Res)) :
+    withinK E n fs = fs.all (fun p => within E n p.2) := by
+  induction fs with
+  | nil => simp [withinK]
+  | cons r rs ih => rcases r with ⟨s, r⟩; simp [withinK, ih]
+
+/-! ### one layer of parsing preserves the limited/unlimited relation -/
+
+/-- limited parser `pd` and unlimited parser `pu`, run in contexts of the same depth and preferences -/
+def Rel (E : Env) (pd pu : Parser) : Prop :=
+  ∀ c c' T v, c.depth = c'.depth → c.mode = c'.mode → Good (within E c.depth) (pd c T v).1 (pu c' T v).1
+
+theorem enter_fixed (Q : Quirks) (hQ : Q.falsyRoute = false) (c : Ctx) (b : Bool) (m : Mode) :
+    enter Q c b m = .ok { c with mode := m } := by
+  simp [enter, hQ]
+
+@[simp] theorem exceeded_none (d : Nat) : exceeded none d = false := rfl
+
+theorem unlimited_get (E : Env) (k : Nat) :
+    (unlimited E)[k]? = (E[k]?).map fun cd => { cd with maxDepth := none } := by
+  simp [unlimited]
+
+section
+variable {W : World} {Q : Quirks} {E : Env} {pd pu : Parser}
+
+theorem parseField_good (hQ : Q.falsyRoute = false) (h : Rel E pd pu) (c c' : Ctx)
+    (hd : c.depth = c'.depth) (hm : c.mode = c'.mode) (t : Ty) (v : Val) :
+    Good (within E c.depth) (parseField Q pd c t v).1 (parseField Q pu c' t v).1 := by
+  simp only [parseField, enter_fixed Q hQ, inCtx]
+  exact h _ _ t v hd (by simp [hm])
+
+theorem parseItems_good (hQ : Q.falsyRoute = false) (h : Rel E pd pu) (c c' : Ctx)
+    (hd : c.depth = c'.depth) (hm : c.mode = c'.mode) (t : Ty) (vs : List Val) :
+    Good (fun rs => rs.all (within E c.depth)) (parseItems Q pd c t vs).1 (parseItems Q pu c' t vs).1 := by
+  simp only [parseItems, enter_fixed Q hQ, inCtx]
+  apply seqM_good
+  intro iv
+  exact h _ _ t iv.2 hd (by simp [hm])
+
+theorem parseEntries_good (hQ : Q.falsyRoute = false) (h : Rel E pd pu) (c c' : Ctx)
+    (hd : c.depth = c'.depth) (hm : c.mode = c'.mode) (kt : KeyTy) (t : Ty) (kvs : List (Key × Val)) :
+    Good (fun rs => rs.all (fun p => within E c.depth p.2))
+      (parseEntries Q pd c kt t kvs).1 (parseEntries Q pu c' kt t kvs).1 := by
+  simp only [parseEntries, enter_fixed Q hQ, inCtx]
+  apply seqM_good (fun (p : Key × Res) => within E c.depth p.2)
+  intro kv
+  by_cases hk : kt.admits kv.1 = true
+  · simp only [hk, Bool.not_true, Bool.false_eq_true, if_false]
+    exact mapOut_good (fun r => (kv.1, r)) (within E c.depth) (fun p => within E c.depth p.2) (fun _ => rfl) _ _
+      (h _ _ t kv.2 hd (by simp [hm]))
+  · simp only [hk, Bool.not_false, if_true]
+    exact good_err _ _ _
+
+theorem parseFF_good (hQ : Q.falsyRoute = false) (h : Rel E pd pu) (c c' : Ctx)
+    (hd : c.depth = c'.depth) (hm : c.mode = c'.mode) (fields : List (String × Ty)) (kvs : List (Key × Val)) :
+    Good (fun rs => rs.all (fun p => within E c.depth p.2))
+      (parseFF Q pd c fields kvs).1 (parseFF Q pu c' fields kvs).1 := by
+  simp only [parseFF]
+  apply seqM_good (fun (p : String × Res) => within E c.depth p.2)
+  intro ft
+  cases lookupKey (Key.str ft.1) kvs with
+  | none => exact good_ok _ _ (by simp [within])
+  | some fv =>
+    exact mapOut_good (fun r => (ft.1, r)) (within E c.depth) (fun p => within E c.depth p.2) (fun _ => rfl) _ _
+      (parseField_good hQ h c c' hd hm ft.2 fv)
+
+theorem lookup_all {α} (w : α → Bool) (rs : List (String × α)) (s : String) (a : α)
+    (hall : rs.all (fun p => w p.2) = true) (h : rs.lookup s = some a) : w a = true := by
+  induction rs with
+  | nil => simp [List.lookup] at h
+  | cons r rs ih =>
+    rcases r with ⟨s', a'⟩
+    simp only [List.all_cons, Bool.and_eq_true] at hall
+    simp only [List.lookup] at h
+    split at h
+    · cases h; exact hall.1
+    · exact ih hall.2 h
+
+theorem parseDF_good (hQ : Q.falsyRoute = false) (h : Rel E pd pu) (c c' : Ctx)
+    (hd : c.depth = c'.depth) (hm : c.mode = c'.mode) (fields : List (String × Ty)) (kvs : List (Key × Val)) :
+    Good (fun rs => rs.all (fun p => within E c.depth p.2))
+      (parseDF Q pd c fields kvs).1 (parseDF Q pu c' fields kvs).1 := by
+  simp only [parseDF]
+  have hs := seqM_good (fun (p : String × Res) => within E c.depth p.2)
+    (fun (it : String × Ty × Val) => mapOut (fun r => (it.1, r)) (parseField Q pd c it.2.1 it.2.2))
+    (fun (it : String × Ty × Val) => mapOut (fun r => (it.1, r)) (parseField Q pu c' it.2.1 it.2.2))
+    (fun it => mapOut_good (fun r => (it.1, r)) (within E c.depth) (fun p => within E c.depth p.2) (fun _ => rfl) _ _
+      (parseField_good hQ h c c' hd hm it.2.1 it.2.2)) (knownItems fields kvs)
+  constructor
+  · intro fs hfs
+    obtain ⟨rs, hrs, rfl⟩ := (mapOut_fst_ok _ _ fs).1 hfs
+    have := hs.1 rs hrs
+    rw [mapOut_isOk]
+    refine ⟨?_, this.2⟩
+    rw [List.all_eq_true]
+    intro p hp
+    obtain ⟨ft, _, rfl⟩ := List.mem_map.1 hp
+    cases hl : rs.lookup ft.1 with
+    | none => simp [within]
+    | some r => simpa using lookup_all (within E c.depth) rs ft.1 r this.1 hl
+  · intro fs hfs hw
+    obtain ⟨rs, hrs, rfl⟩ := (mapOut_fst_ok _ _ fs).1 hfs
+    refine (mapOut_fst_ok _ _ _).2 ⟨rs, hs.2 rs hrs ?_, rfl⟩
+    -- every parsed item shows up in the assembled fields (keys of a mapping are unique)
+    have hkeys : rs.map Prod.fst = (knownItems fields kvs).map (fun it => it.1) :=
+      seqM_map_fst _ (fun it => it.1) (by
+        intro it b hb
+        obtain ⟨r, _, rfl⟩ := (mapOut_fst_ok _ _ b).1 hb
+        rfl) _ rs hrs
+    have hnd : (rs.map Prod.fst).Nodup := by
+      rw [hkeys]; exact dedupFst_nodup _
+    rw [List.all_eq_true]
+    intro p hp
+    rcases p with ⟨s, r⟩
+    have hs' : s ∈ (knownItems fields kvs).map (fun it => it.1) := by
+      rw [← hkeys]; exact List.mem_map.2 ⟨(s, r), hp, rfl⟩
+    obtain ⟨it, hit, hits⟩ := List.mem_map.1 hs'
+    have hit' := dedupFst_subset _ it hit
+    obtain ⟨kv, _, hkv⟩ := List.mem_filterMap.1 hit'
+    have hfield : ∃ t, (s, t) ∈ fields := by
+      cases hk : kv.1 with
+      | int i => simp [hk] at hkv
+      | str s0 =>
+        simp only [hk] at hkv
+        cases hl : fields.lookup s0 with
+        | none => simp [hl] at hkv
+        | some t =>
+          simp only [hl, Option.map_some, Option.some.injEq] at hkv
+          subst hkv
+          simp only at hits
+          subst hits
+          exact ⟨t, lookup_some_mem _ _ _ hl⟩
+    obtain ⟨t, ht⟩ := hfield
+    rw [List.all_eq_true] at hw
+    have := hw (s, (rs.lookup s).getD Res.none) (List.mem_map.2 ⟨(s, t), ht, rfl⟩)
+    rw [lookup_of_mem_nodup rs s r hnd hp] at this
+    simpa using this
+
+theorem unionStage_good (hQ : Q.falsyRoute = false) (h : Rel E pd pu) (c c' : Ctx)
+    (hd : c.depth = c'.depth) (ts : List Ty) (v : Val) (m : Mode) (f f' : Flags) :
+    Good (within E c.depth) (unionStage Q pd c ts v m f).1 (unionStage Q pu c' ts v m f').1 := by
+  simp only [unionStage, enter_fixed Q hQ, inCtx]
+  apply tryAll_good
+  intro t
+  exact h _ _ t v hd rfl
+
+theorem parseUnion_good (hQ : Q.falsyRoute = false) (h : Rel E pd pu) (c c' : Ctx)
+    (hd : c.depth = c'.depth) (hm : c.mode = c'.mode) (ts : List Ty) (v : Val) :
+    Good (within E c.depth) (parseUnion Q pd c ts v).1 (parseUnion Q pu c' ts v).1 := by
+  simp only [parseUnion, ← hm]
+  split
+  · exact good_ok _ _ (by simp [within])
+  · apply orElse_good
+    · split
+      · exact unionStage_good hQ h c c' hd ts v _ _ _
+      · exact good_err _ _ _
+    · intro f f'
+      apply orElse_good
+      · split
+        · exact unionStage_good hQ h c c' hd ts v _ _ _
+        · exact good_err _ _ _
+      · intro g g'
+        exact unionStage_good hQ h c c' hd ts v _ _ _
+
+/-- one layer: if the parsers for the parts are related, so are the parsers for the whole -/
+theorem step_rel (hQ : Q.falsyRoute = false) (h : Rel E pd pu) :
+    Rel E (step W Q E pd) (step W Q (unlimited E) pu) := by
+  intro c c' T v hd hm
+  cases T with
+  | leaf =>
+    simp only [step, ← hm]
+    cases v with
+    | tok n =>
+      by_cases hl : W.leafOk c.mode n = true
+      · simp only [hl, if_true]; exact good_ok _ _ (by simp [within])
+      · simp only [hl, Bool.false_eq_true, if_false]; exact good_err _ _ _
+    | none => exact good_err _ _ _
+    | list vs => exact good_err _ _ _
+    | dict kvs => exact good_err _ _ _
+  | none =>
+    simp only [step]
+    cases v with
+    | none => exact good_ok _ _ (by simp [within])
+    | tok n => exact good_err _ _ _
+    | list vs => exact good_err _ _ _
+    | dict kvs => exact good_err _ _ _
+  | data k =>
+    simp only [step, unlimited_get]
+    cases hk : E[k]? with
+    | none => simp only [Option.map_none]; exact good_err _ _ _
+    | some cd =>
+      simp only [Option.map_some, exceeded_none]
+      by_cases hex : exceeded cd.maxDepth (c.depth + 1) = true
+      · -- the limit rejects: nothing the unlimited run produces here is within the limit
+        simp only [hex, if_true]
+        apply good_err_left
+        intro r hr
+        simp only [Bool.false_eq_true, if_false] at hr
+        cases v with
+        | dict kvs =>
+          obtain ⟨fs, _, rfl⟩ := (mapOut_fst_ok _ _ r).1 hr
+          simp [within, hk, hex]
+        | tok n => cases hr
+        | none => cases hr
+        | list vs => cases hr
+      · simp only [hex, Bool.false_eq_true, if_false]
+        cases v with
+        | tok n => exact good_err _ _ _
+        | none => exact good_err _ _ _
+        | list vs => exact good_err _ _ _
+        | dict kvs =>
+          have hw : ∀ fs, within E c.depth (Res.data k fs) = fs.all (fun p => within E (c.depth + 1) p.2) := by
+            intro fs
+            have : exceeded cd.maxDepth (c.depth + 1) = false := by simpa using hex
+            simp [within, hk, this, withinF_eq]
+          apply mapOut_good (Res.data k) (fun fs => fs.all (fun p => within E (c.depth + 1) p.2)) _ hw
+          have hd' : c.depth + 1 = c'.depth + 1 := by rw [hd]
+          split
+          · exact parseDF_good hQ h ⟨c.depth + 1, cd.mode, cd.maxDepth⟩ ⟨c'.depth + 1, cd.mode, none⟩ hd' rfl _ _
+          · exact parseFF_good hQ h ⟨c.depth + 1, cd.mode, cd.maxDepth⟩ ⟨c'.depth + 1, cd.mode, none⟩ hd' rfl _ _
+  | list t =>
+    simp only [step, ← hm]
+    cases wrapSeq c.mode v with
+    | none => exact good_err _ _ _
+    | some vs =>
+      exact mapOut_good Res.list (fun rs => rs.all (within E c.depth)) _
+        (fun rs => by simp [within, withinL_eq]) _ _ (parseItems_good hQ h c c' hd hm t vs)
+  | tuple t =>
+    simp only [step, ← hm]
+    cases wrapSeq c.mode v with
+    | none => exact good_err _ _ _
+    | some vs =>
+      exact mapOut_good Res.tuple (fun rs => rs.all (within E c.depth)) _
+        (fun rs => by simp [within, withinL_eq]) _ _ (parseItems_good hQ h c c' hd hm t vs)
+  | dict kt t =>
+    simp only [step]
+    cases v with
+    | tok n => exact good_err _ _ _
+    | none => exact good_err _ _ _
+    | list vs => exact good_err _ _ _
+    | dict kvs =>
+      exact mapOut_good Res.dict (fun rs => rs.all (fun p => within E c.depth p.2)) _
+        (fun rs => by simp [within, withinK_eq]) _ _ (parseEntries_good hQ h c c' hd hm kt t kvs)
+  | union ts =>
+    simp only [step]
+    exact parseUnion_good hQ h c c' hd hm ts v
+
+end
+
+/-- the limited and the unlimited parser are related at every fuel -/
+theorem parse_rel (W : World) (Q : Quirks) (hQ : Q.falsyRoute = false) (E : Env) (fuel : Nat) :
+    Rel E (parse W Q E fuel) (parse W Q (unlimited E) fuel) := by
+  induction fuel with
+  | zero => intro c c' T v _ _; exact good_err _ _ _
+  | succ n ih => exact step_rel hQ ih
+
+/-! ### the depth limit is exact -/
+
+/-- **Soundness of the limit.**  Whatever is accepted under the declared limits respects them: every
+data-class instance of the result sits at a nesting level its class allows — at any list index, under
+any mapping key, in any union branch (the statement is for every declared type and every input). -/
+theorem C18_limit_sound (W : World) (Q : Quirks) (hQ : Q.falsyRoute = false) (E : Env) (fuel : Nat)
+    (c : Ctx) (T : Ty) (v : Val) (r : Res) (h : (parse W Q E fuel c T v).1 = .ok r) :
+    within E c.depth r = true :=
+  ((parse_rel W Q hQ E fuel c c T v rfl rfl).1 r h).1
+
+/-- **The limit only rejects.**  What is accepted with limits is accepted without. -/
+theorem C18_limit_monotone (W : World) (Q : Quirks) (hQ : Q.falsyRoute = false) (E : Env) (fuel : Nat)
+    (c : Ctx) (T : Ty) (v : Val) (r : Res) (h : (parse W Q E fuel c T v).1 = .ok r) :
+    (parse W Q (unlimited E) fuel c T v).1.isOk = true :=
+  ((parse_rel W Q hQ E fuel c c T v rfl rfl).1 r h).2
+
+/-- **Completeness of the limit.**  If the value parses to `r` without limits and `r` respects the
+limits, the limited parser accepts it with the same result: nothing within the limit is rejected,
+whatever the position of the nested value. -/
+theorem C18_limit_complete (W : World) (Q : Quirks) (hQ : Q.falsyRoute = false) (E : Env) (fuel : Nat)
+    (c : Ctx) (T : Ty) (v : Val) (r : Res) (h : (parse W Q (unlimited E) fuel c T v).1 = .ok r)
+    (hw : within E c.depth r = true) : (parse W Q E fuel c T v).1 = .ok r :=
+  (parse_rel W Q hQ E fuel c c T v rfl rfl).2 r h hw
+
+/-! #### one limit `d` for every class: "respects the limits" is "nesting depth ≤ d" -/
+
+theorem withLimit_get (d : Nat) (E : Env) (k : Nat) :
+    (withLimit d E)[k]? = (E[k]?).map fun cd => { cd with maxDepth := some d } := by
+  simp [withLimit]
+
+theorem unlimited_withLimit (d : Nat) (E : Env) : unlimited (withLimit d E) = unlimited E := by
+  simp [unlimited, withLimit, List.map_map, Function.comp_def]
+
+theorem exceeded_some (d n : Nat) (hd : d ≠ 0) : exceeded (some d) n = decide (n > d) := by
+  simp [exceeded, hd]
+
+mutual
+theorem within_uniform (d : Nat) (hd : d ≠ 0) (E : Env) : ∀ (n : Nat) (r : Res),
+    within (withLimit d E) n r = true → rdepth r = 0 ∨ n + rdepth r ≤ d
+  | _, .leaf _, _ => Or.inl rfl
+  | _, .none, _ => Or.inl rfl
+  | n, .data k fs, h => by
+    simp only [within, withLimit_get, Bool.and_eq_true] at h
+    have h2 := withinF_uniform d hd E (n + 1) fs h.2
+    have h1 : n + 1 ≤ d := by
+      cases hk : E[k]? with
+      | none => simp [hk] at h
+      | some cd => simpa [hk, exceeded_some _ _ hd] using h.1
+    simp only [rdepth]
+    omega
+  | n, .list rs, h => by
+    simp only [within] at h
+    simpa [rdepth] using withinL_uniform d hd E n rs h
+  | n, .tuple rs, h => by
+    simp only [within] at h
+    simpa [rdepth] using withinL_uniform d hd E n rs h
+  | n, .dict kvs, h => by
+    simp only [within] at h
+    simpa [rdepth] using withinK_uniform d hd E n kvs h
+theorem withinL_uniform (d : Nat) (hd : d ≠ 0) (E : Env) : ∀ (n : Nat) (rs : List Res),
+    withinL (withLimit d E) n rs = true → rdepthL rs = 0 ∨ n + rdepthL rs ≤ d
+  | _, [], _ => Or.inl rfl
+  | n, r :: rs, h => by
+    simp only [withinL, Bool.and_eq_true] at h
+    have h1 := within_uniform d hd E n r h.1
+    have h2 := withinL_uniform d hd E n rs h.2
+    simp only [rdepthL, Nat.max_def]
+    split <;> omega
+theorem withinF_uniform (d : Nat) (hd : d ≠ 0) (E : Env) : ∀ (n : Nat) (rs : List (String × Res)),
+    withinF (withLimit d E) n rs = true → rdepthF rs = 0 ∨ n + rdepthF rs ≤ d
+  | _, [], _ => Or.inl rfl
+  | n, (_, r) :: rs, h => by
+    simp only [withinF, Bool.and_eq_true] at h
+    have h1 := within_uniform d hd E n r h.1
+    have h2 := withinF_uniform d hd E n rs h.2
+    simp only [rdepthF, Nat.max_def]
+    split <;> omega
+theorem withinK_uniform (d : Nat) (hd : d ≠ 0) (E : Env) : ∀ (n : Nat) (rs : List (Key × Res)),
+    withinK (withLimit d E) n rs = true → rdepthK rs = 0 ∨ n + rdepthK rs ≤ d
+  | _, [], _ => Or.inl rfl
+  | n, (_, r) :: rs, h => by
+    simp only [withinK, Bool.and_eq_true] at h
+    have h1 := within_uniform d hd E n r h.1
+    have h2 := withinK_uniform d hd E n rs h.2
+    simp only [rdepthK, Nat.max_def]
+    split <;> omega
+end
+
+mutual
+theorem uniform_within (d : Nat) (hd : d ≠ 0) (E : Env) : ∀ (n : Nat) (r : Res),
+    within (unlimited E) n r = true → (rdepth r = 0 ∨ n + rdepth r ≤ d) → within (withLimit d E) n r = true
+  | _, .leaf _, _, _ => rfl
+  | _, .none, _, _ => rfl
+  | n, .data k fs, h, hr => by
+    simp only [within, unlimited_get, Bool.and_eq_true] at h
+    simp only [rdepth] at hr
+    simp only [within, withLimit_get, Bool.and_eq_true]
+    constructor
+    · cases hk : E[k]? with
+      | none => simp [hk] at h
+      | some cd => simp [exceeded_some _ _ hd]; omega
+    · exact uniform_withinF d hd E (n + 1) fs h.2 (by omega)
+  | n, .list rs, h, hr => by
+    simp only [within] at h ⊢
+    exact uniform_withinL d hd E n rs h (by simpa [rdepth] using hr)
+  | n, .tuple rs, h, hr => by
+    simp only [within] at h ⊢
+    exact uniform_withinL d hd E n rs h (by simpa [rdepth] using hr)
+  | n, .dict kvs, h, hr => by
+    simp only [within] at h ⊢
+    exact uniform_withinK d hd E n kvs h (by simpa [rdepth] using hr)
+theorem uniform_withinL (d : Nat) (hd : d ≠ 0) (E : Env) : ∀ (n : Nat) (rs : List Res),
+    withinL (unlimited E) n rs = true → (rdepthL rs = 0 ∨ n + rdepthL rs ≤ d) → withinL (withLimit d E) n rs = true
+  | _, [], _, _ => rfl
+  | n, r :: rs, h, hr => by
+    simp only [withinL, Bool.and_eq_true] at h ⊢
+    simp only [rdepthL, Nat.max_def] at hr
+    constructor
+    · exact uniform_within d hd E n r h.1 (by split at hr <;> omega)
+    · exact uniform_withinL d hd E n rs h.2 (by split at hr <;> omega)
+theorem uniform_withinF (d : Nat) (hd : d ≠ 0) (E : Env) : ∀ (n : Nat) (rs : List (String × Res)),
+    withinF (unlimited E) n rs = true → (rdepthF rs = 0 ∨ n + rdepthF rs ≤ d) → withinF (withLimit d E) n rs = true
+  | _, [], _, _ => rfl
+  | n, (_, r) :: rs, h, hr => by
+    simp only [withinF, Bool.and_eq_true] at h ⊢
+    simp only [rdepthF, Nat.max_def] at hr
+    constructor
+    · exact uniform_within d hd E n r h.1 (by split at hr <;> omega)
+    · exact uniform_withinF d hd E n rs h.2 (by split at hr <;> omega)
+theorem uniform_withinK (d : Nat) (hd : d ≠ 0) (E : Env) : ∀ (n : Nat) (rs : List (Key × Res)),
+    withinK (unlimited E) n rs = true → (rdepthK rs = 0 ∨ n + rdepthK rs ≤ d) → withinK (withLimit d E) n rs = true
+  | _, [], _, _ => rfl
+  | n, (_, r) :: rs, h, hr => by
+    simp only [withinK, Bool.and_eq_true] at h ⊢
+    simp only [rdepthK, Nat.max_def] at hr
+    constructor
+    · exact uniform_within d hd E n r h.1 (by split at hr <;> omega)
+    · exact uniform_withinK d hd E n rs h.2 (by split at hr <;> omega)
+end
+
+/-- **The depth limit is exact** (headline).  Every class carries `max_depth = d ≥ 1`; the entry point is
+the class itself (`K(**data)`, `K.__from__`, and — after the fix — `type_transform`).
+
+* (1) whatever is accepted has data-class nesting depth ≤ d, and is accepted without a limit as well;
+* (2) for a value that parses to `r` when no limit is set: it is accepted (as `r`) under the limit
+  **exactly when** the nesting depth of `r` is at most `d`.
+
+For every leaf behaviour, declaration environment, root class, input value and fuel — the nested value may sit at
+any list index, under any mapping key, in any union branch. -/
+theorem C18_depth_exact (W : World) (Q : Quirks) (hQ : Q.falsyRoute = false) (hR : Q.rootLevel = false)
+    (E : Env) (d : Nat) (hd : d ≠ 0) (fuel : Nat) (via : Bool) (k : Nat) (v : Val) :
+    (∀ r, (parseTop W Q (withLimit d E) fuel via k v).1 = .ok r →
+        rdepth r ≤ d ∧ (parseTop W Q (unlimited E) fuel via k v).1.isOk = true) ∧
+    (∀ r, (parseTop W Q (unlimited E) fuel via k v).1 = .ok r →
+        ((parseTop W Q (withLimit d E) fuel via k v).1 = .ok r ↔ rdepth r ≤ d)) := by
+  simp only [parseTop, hR, Bool.and_false, Bool.false_eq_true, if_false]
+  constructor
+  · intro r h
+    have h1 := C18_limit_sound W Q hQ _ fuel _ _ v r h
+    have h2 := C18_limit_monotone W Q hQ _ fuel _ _ v r h
+    rw [unlimited_withLimit] at h2
+    refine ⟨?_, h2⟩
+    have := within_uniform d hd E 0 r h1
+    omega
+  · intro r h
+    constructor
+    · intro h'
+      have := within_uniform d hd E 0 r (C18_limit_sound W Q hQ _ fuel _ _ v r h')
+      omega
+    · intro hr
+      have hu : within (unlimited E) 0 r = true := by
+        have := C18_limit_sound W Q hQ (unlimited E) fuel _ _ v r h
+        simpa using this
+      apply C18_limit_complete W Q hQ (withLimit d E) fuel _ _ v r
+      · rw [unlimited_withLimit]; exact h
+      · exact uniform_within d hd E 0 r hu (Or.inr (by omega))
+
 end Utv.C18
